@@ -42,7 +42,8 @@ type FsCase struct {
 	OnlyLoc    string `json:"only_loc,omitempty"`
 	OnlyLoader string `json:"only_loader,omitempty"`
 	OnlyVia    string `json:"only_via,omitempty"`
-	MemFS      bool   `json:"memfs,omitempty"` // FSLibrary over the in-memory FS instead
+	MemFS      bool   `json:"memfs,omitempty"`       // FSLibrary over the in-memory FS instead
+	RootSwitch string `json:"root_switch,omitempty"` // after a first round of loads the root symlink is re-pointed to this directory
 
 	hintLoc, hintLoader, hintVia string
 }
@@ -116,6 +117,17 @@ func (fsEngine) Gen(r *Rand, tier string) any {
 			links = append(links, p)
 		}
 		c.RootSpec = PickStr(r, []string{"@/root", "@/root", "@/root/", "@/root/", "@/rootlink", "@/rootlink/", "root", "root/", "@/root/a/..", "./root", "@/root//", "@/./root"})
+		if r.Chance(1, 5) {
+			// a deployment switch: the root is a symlink that is re-pointed between two rounds of loads
+			c.RootSpec = PickStr(r, []string{"@/rootlink", "@/rootlink/"})
+			c.RootSwitch = "root-b"
+			c.Adv = nil
+			add("root-b", "dir", "")
+			add("root-b/a", "dir", "")
+			add("root-b/f0.lisp", "file", "")
+			add("root-b/a/f1.lisp", "file", "")
+			add("root-b/lb", "link", "../root/f0.lisp")
+		}
 		if r.Chance(1, 2) && len(links) > 0 {
 			adv := &FsAdv{}
 			switch r.Pick([]int{6, 2, 1}) {
@@ -202,7 +214,10 @@ func (s *fsSpec) resolve(comps []string) (real string, kind string, ok bool) {
 	return strings.Join(cur, "/"), "dir", true
 }
 
-func insideRoot(real string) bool { return real == "root" || strings.HasPrefix(real, "root/") }
+// rootReal is the real directory (relative to base) the configured root currently resolves to.
+var rootReal = "root"
+
+func insideRoot(real string) bool { return real == rootReal || strings.HasPrefix(real, rootReal+"/") }
 
 // ------------------------------------------------------------------- disk
 
@@ -295,6 +310,15 @@ func (c *FsCase) locations(d *fsDisk) []fsLoad {
 	sort.Strings(names)
 	alpha := append([]string{".", ".."}, names...)
 	loaders := []string{"", "root/f0.lisp", "root/a/f1.lisp", "root/a/b/f2.lisp"}
+	// loading-file contexts spelled through a directory symlink (a host may
+	// hand the library any location, e.g. through LoadLocation)
+	for _, n := range c.Nodes {
+		if n.Kind == "link" && strings.HasPrefix(n.Path, "root/") {
+			if _, k, ok := d.spec.resolve(strings.Split(n.Path, "/")); ok && k == "dir" {
+				loaders = append(loaders, n.Path+"/boot.lisp")
+			}
+		}
+	}
 	var locs []string
 	for _, a := range alpha {
 		locs = append(locs, a)
@@ -345,7 +369,7 @@ func (c *FsCase) locations(d *fsDisk) []fsLoad {
 	// end-to-end loads through (load-file ...) evaluated from a loader file
 	for i := 0; i < 60 && len(c.Picks) > 0; i++ {
 		l := out[pick(len(out))]
-		if l.loader == "" {
+		if l.loader == "" || strings.HasSuffix(l.loader, "/boot.lisp") {
 			l.loader = "root/a/f1.lisp"
 		}
 		l.via = "load-file"
@@ -428,7 +452,45 @@ func (fsEngine) Run(ci any, st *Stats) *Violation {
 		return Violf("harness", "adversary cases need a simulator built with -tags verif")
 	}
 
-	for _, ld := range c.locations(d) {
+	resolveRoot := func() bool {
+		real, kind, ok := d.spec.resolve(strings.Split(strings.TrimPrefix(c.RootSpec, "@/"), "/"))
+		if !ok || kind != "dir" {
+			return false
+		}
+		rootReal = real
+		return true
+	}
+	defer func() { rootReal = "root" }()
+	if !resolveRoot() {
+		return nil
+	}
+	loads := c.locations(d)
+	if c.RootSwitch != "" && c.OnlyLoc == "" {
+		// round 1 under the old target, then the switch, then every load again
+		loads = append(append(append([]fsLoad(nil), loads...), fsLoad{via: "switch"}), loads...)
+		for _, extra := range []string{"f0.lisp", "a/f1.lisp", "lb"} {
+			loads = append(loads, fsLoad{via: "LoadSource", loader: "", loc: d.base + "/root-b/" + extra},
+				fsLoad{via: "LoadSource", loader: "root-b/f0.lisp", loc: extra}, fsLoad{via: "LoadSource", loader: "", loc: d.base + "/rootlink/" + extra})
+		}
+	} else if c.RootSwitch != "" {
+		loads = append([]fsLoad{{via: "LoadSource", loader: "", loc: d.base + "/root/f0.lisp"}, {via: "switch"}}, loads...)
+	}
+	for _, ld := range loads {
+		if ld.via == "switch" {
+			link := filepath.Join(d.base, "rootlink")
+			if os.Remove(link) != nil || os.Symlink(c.RootSwitch, link) != nil {
+				return Violf("harness", "cannot re-point the root link")
+			}
+			n := d.spec.nodes["rootlink"]
+			n.Target = c.RootSwitch
+			d.spec.nodes["rootlink"] = n
+			if !resolveRoot() {
+				return nil
+			}
+			st.Inc("fault_root_link_repointed_between_loads")
+			nontrivial = true
+			continue
+		}
 		undo = undo[:0]
 		advFired = false
 		fail := func(oracle, format string, a ...any) *Violation {
